@@ -780,7 +780,9 @@ def gen_exec(rng, op, nres, others, fault=None, cb=None):
     if rs != "none" and rng.random() < 0.3:
         rs += "~" + rng.choice(sorted(REQ_KINDS))     # the request passed as another iterable type (some are one-shot)
     elif rs != "none" and rng.random() < 0.05:
-        rs += f"~e{rng.randint(0, len(req))}"         # ... whose iteration raises at the k-th step
+        rs += "~e0"         # ... whose iteration raises at once (k > 0 - ids handed out before it raises - only where taking
+        #                     and giving back leaves no trace: request_kind_table, free resources; otherwise a code that
+        #                     materialises the request first would differ observably from one that walks it lazily)
     cps = rng.choice(CP_SCRIPTS)
     a = rng.random()
     if a < 0.55:
@@ -1003,6 +1005,8 @@ def request_kind_table():
         for req in ("-", "1", "1,2", "2,1", "1,1", "1,2,1", "2,9"):
             for hold in ("free", "r2-held", "r1-preemptable"):
                 for layer in ("exec", "cell"):
+                    if kind in ("e1", "e2") and hold != "free":
+                        continue
                     lines = ["cfg none none none priority", f"res 1 {'1' if hold == 'r1-preemptable' else '0'}", "res 2 0"]
                     if hold == "r2-held":
                         lines += ["start 2 4", "acq 2 2"]
